@@ -66,7 +66,9 @@ def gen_values(rng, ty, n):
             elif rng.random() < 0.04:
                 s = bytes(rng.randrange(1, 256) for _ in range(rng.choice([1, 3, 17, 40])))
             else:
-                s = ("%s%d" % (rng.choice(["", "a", "item-", "\xc3\xa9"]), x)).encode("latin-1", "replace")
+                # (the long prefix leaves the small-string buffer: the item owns heap memory, so items that a reader constructs and
+                #  never destroys on a rejection path show in the allocation balance)
+                s = ("%s%d" % (rng.choice(["", "a", "item-", "\xc3\xa9", "a-long-item-owning-heap-memory-"]), x)).encode("latin-1", "replace")
             out.append(item_hex(ty, s))
     return out
 
